@@ -171,7 +171,7 @@ func TestVerifC20DemuxConc(t *testing.T) {
 		ids := make([]string, nAtt)
 		for i := range metas {
 			metas[i] = vfC20RandMeta(r)
-			ids[i] = fmt.Sprintf("w%d-a%d", wi, i)
+			ids[i] = vfC20AttemptID(r, fmt.Sprintf("w%d-a%d", wi, i), 200)
 		}
 		multi := nAtt - 1 // toggled by every writer
 		// packets
@@ -597,7 +597,7 @@ func TestVerifC20DemuxHammer(t *testing.T) {
 			t.Fatalf("NewPunchPacketConn: %v", err)
 		}
 		for b := 0; b < nBallast; b++ {
-			if err := w.AddPunchAttempt(fmt.Sprintf("%s-ballast-%d", world, b), vfC20RandMeta(r).PM()); err != nil {
+			if err := w.AddPunchAttempt(vfC20AttemptID(r, fmt.Sprintf("%s-ballast-%d", world, b), 100), vfC20RandMeta(r).PM()); err != nil {
 				t.Fatalf("ballast: %v", err)
 			}
 		}
@@ -676,7 +676,7 @@ func TestVerifC20DemuxHammer(t *testing.T) {
 				defer twg.Done()
 				start.Wait()
 				for rd := 0; rd < nRounds; rd++ {
-					h := &hid{id: fmt.Sprintf("%s-t%d-r%d", world, th, rd), meta: vfC20RandMeta(tr), client: 100 + th}
+					h := &hid{id: vfC20AttemptID(tr, fmt.Sprintf("%s-t%d-r%d", world, th, rd), 100), meta: vfC20RandMeta(tr), client: 100 + th}
 					all[th] = append(all[th], h)
 					pm := h.meta.PM()
 					h.addCall = clock.Stamp()
